@@ -108,11 +108,29 @@ func isLit(s stmt, i int) bool {
 	return i >= 0 && i < len(s.Toks) && s.Toks[i].K >= kInt && s.Toks[i].K <= kStr
 }
 
-func hasDoubledQuote(l string) bool {
+// doubledQuotes counts the quote characters written doubled inside a string literal.
+func doubledQuotes(l string) int {
 	if len(l) < 2 || (l[0] != '\'' && l[0] != '"') {
-		return false
+		return 0
 	}
-	return strings.Contains(l[1:len(l)-1], l[:1]+l[:1])
+	return strings.Count(l[1:len(l)-1], l[:1]+l[:1])
+}
+
+// listCommentWithSQLChars reports whether one of the responsible edits is a comment inside an
+// IN / VALUES list whose text contains a quote or parenthesis (root cause of F8).
+func listCommentWithSQLChars(s stmt, edits []edit, culprits []int) bool {
+	for _, i := range culprits {
+		e := edits[i]
+		if e.T != "comment" {
+			continue
+		}
+		next := e.At + 1
+		inList := (e.At >= 0 && s.Toks[e.At].D > 0) || (next < len(s.Toks) && s.Toks[next].D > 0)
+		if inList && strings.ContainsAny(e.New, "'\"()") {
+			return true
+		}
+	}
+	return false
 }
 
 // gapText is the whitespace of gap g after the whitespace edits.
@@ -144,7 +162,7 @@ func gapHasComment(edits []edit, g int) bool {
 }
 
 // classifyEdit maps a responsible edit to the known finding whose root cause it matches ("" = none).
-func classifyEdit(s stmt, edits []edit, i int) string {
+func classifyEdit(s stmt, edits []edit, culprits []int, i int) string {
 	e := edits[i]
 	switch e.T {
 	case "ws_add", "ws_del":
@@ -190,9 +208,15 @@ func classifyEdit(s stmt, edits []edit, i int) string {
 			// F4: a decimal literal without integer part (.5) becomes ".?"
 			return "C36-F4"
 		}
-		if s.Toks[e.At].K == kStr && hasDoubledQuote(old) != hasDoubledQuote(e.New) {
-			// F5: a quote doubled inside a string literal ends the literal for the fingerprint
+		if s.Toks[e.At].K == kStr && doubledQuotes(old) != doubledQuotes(e.New) {
+			// F5: a quote doubled inside a string literal ends the literal for the fingerprint, so the
+			// number of "?" depends on how many doubled quotes the value holds
 			return "C36-F5"
+		}
+		if s.Toks[e.At].K == kStr && s.Toks[e.At].D > 0 && listCommentWithSQLChars(s, edits, culprits) {
+			// F8: a quote in a comment inside the list pairs up with the quotes of the list's string
+			// values, so the fingerprint depends on the value once such a comment is present
+			return "C36-F8"
 		}
 	}
 	return ""
